@@ -369,8 +369,20 @@ func (e *c01Env) duplicateMembers(caseNo *int) {
 func (e *c01Env) duplicateInnerMembers(caseNo *int) {
 	c := e.c
 	signer := e.keys[0]
-	path, _, err := e.chain.WriteLayout("dupinner.layout", signer)
+	// the genuine layout names a root CA of its own (nobody holds a certificate of it): every member
+	// the forged copies repeat is present in the signed text, too
+	honestCA, err := gen.NewCA(gen.CertSpec{CN: "honest-but-unused-ca"}, nil)
 	if err != nil {
+		return
+	}
+	genuineLayout := e.chain.Layout
+	genuineLayout.RootCas = map[string]intoto.Key{honestCA.Key.KeyID: honestCA.Key}
+	gmd, err := gen.SignedMeta(genuineLayout, e.dsse, signer.Priv)
+	if err != nil {
+		return
+	}
+	path := filepath.Join(e.chain.Root, "dupinner.layout")
+	if gmd.Dump(path) != nil {
 		return
 	}
 	raw, _ := os.ReadFile(path)
